@@ -15,7 +15,7 @@ RULE = ("triples (base, local, remote) of schema-valid notebooks: base from G-NB
         "append outputs, execution-count-only conflicts), merged under configurations drawn from the 4x5x7x2 CLI combinations "
         "(args built by the real nbmerge parser) + mergetool, x PATH variant (git merge-file / diff3 / built-in). "
         "Non-trivial: local != base != remote != local and >= 1 decision; distinct by hash of (triple, configuration, PATH variant).")
-FLOOR = {"quick": 1500, "thorough": 30000}
+FLOOR = {"quick": 5000, "thorough": 30000}
 REQUIRED_MONITORS = ("merge_returned",)
 ASSUMPTIONS = ["inputs valid by jsonschema self-check against nbformat's per-minor schema",
                "ERROR-level log lines are not failures: the property is about returning, not log silence",
@@ -26,7 +26,7 @@ SCHEMA = False
 
 def plan(tier, seed):
     if tier == "quick":
-        return [{"i": i, "triples": 45, "cfgs": 8, "full_every": 0, "timeout": 900} for i in range(NSHARDS)]
+        return [{"i": i, "triples": 160, "cfgs": 8, "full_every": 0, "timeout": 900} for i in range(NSHARDS)]
     return [{"i": i, "triples": 420, "cfgs": 12, "full_every": 40, "timeout": 3000} for i in range(NSHARDS)]
 
 
